@@ -807,6 +807,9 @@ impl RLN {
         // [ proof<128> | root<32> | external_nullifier<32> | x<32> | y<32> | nullifier<32> ]
         let mut input_byte: Vec<u8> = Vec::new();
         input_data.read_to_end(&mut input_byte)?;
+        if input_byte.len() < 128 + 5 * fr_byte_size() {
+            return Err(Report::msg("input too short to contain a proof and its values"));
+        }
         let proof = ArkProof::deserialize_compressed(&mut Cursor::new(&input_byte[..128]))?;
 
         let (proof_values, _) = deserialize_proof_values(&input_byte[128..]);
@@ -966,6 +969,11 @@ impl RLN {
         let mut serialized: Vec<u8> = Vec::new();
         input_data.read_to_end(&mut serialized)?;
         let mut all_read = 0;
+        if serialized.len() < 128 + 5 * fr_byte_size() + 8 {
+            return Err(Report::msg(
+                "input too short to contain a proof, its values and a signal length",
+            ));
+        }
         let proof =
             ArkProof::deserialize_compressed(&mut Cursor::new(&serialized[..128].to_vec()))?;
         all_read += 128;
@@ -977,6 +985,9 @@ impl RLN {
         ))?;
         all_read += 8;
 
+        if signal_len > serialized.len() - all_read {
+            return Err(Report::msg("signal length exceeds input size"));
+        }
         let signal: Vec<u8> = serialized[all_read..all_read + signal_len].to_vec();
 
         let verified = verify_proof(&self.verification_key, &proof, &proof_values)?;
@@ -1041,6 +1052,11 @@ impl RLN {
         let mut serialized: Vec<u8> = Vec::new();
         input_data.read_to_end(&mut serialized)?;
         let mut all_read = 0;
+        if serialized.len() < 128 + 5 * fr_byte_size() + 8 {
+            return Err(Report::msg(
+                "input too short to contain a proof, its values and a signal length",
+            ));
+        }
         let proof =
             ArkProof::deserialize_compressed(&mut Cursor::new(&serialized[..128].to_vec()))?;
         all_read += 128;
@@ -1052,6 +1068,9 @@ impl RLN {
         ))?;
         all_read += 8;
 
+        if signal_len > serialized.len() - all_read {
+            return Err(Report::msg("signal length exceeds input size"));
+        }
         let signal: Vec<u8> = serialized[all_read..all_read + signal_len].to_vec();
 
         let verified = verify_proof(&self.verification_key, &proof, &proof_values)?;
@@ -1287,12 +1306,18 @@ impl RLN {
         // We serialize_compressed the two proofs, and we get the corresponding RLNProofValues objects
         let mut serialized: Vec<u8> = Vec::new();
         input_proof_data_1.read_to_end(&mut serialized)?;
+        if serialized.len() < 128 + 5 * fr_byte_size() {
+            return Err(Report::msg("input too short to contain a proof and its values"));
+        }
         // We skip deserialization of the zk-proof at the beginning
         let (proof_values_1, _) = deserialize_proof_values(&serialized[128..]);
         let external_nullifier_1 = proof_values_1.external_nullifier;
 
         let mut serialized: Vec<u8> = Vec::new();
         input_proof_data_2.read_to_end(&mut serialized)?;
+        if serialized.len() < 128 + 5 * fr_byte_size() {
+            return Err(Report::msg("input too short to contain a proof and its values"));
+        }
         // We skip deserialization of the zk-proof at the beginning
         let (proof_values_2, _) = deserialize_proof_values(&serialized[128..]);
         let external_nullifier_2 = proof_values_2.external_nullifier;
